@@ -75,7 +75,7 @@ def _history(draw, maxlen=25):
         elif kind in ("rm_idx", "rm_inst"):
             ops.append({"op": kind, "i": draw(I)})
         elif kind in ("rm_idxs", "rm_insts"):
-            ops.append({"op": kind, "is": draw(st.lists(I, min_size=1, max_size=3))})
+            ops.append({"op": kind, "is": draw(st.lists(I, min_size=1, max_size=4))})
         elif kind == "allow":
             ops.append({"op": kind, "names": draw(st.one_of(st.just([]), sub, st.just(list(names))))})
         elif kind == "require":
@@ -246,8 +246,11 @@ def run_api(case, failures):
         elif o == "rm_idxs":
             if n == 0:
                 continue
-            idxs = sorted({i % n for i in op["is"]})
-            net.remove_reaction(list(idxs))
+            raw = [i % n for i in op["is"]]  # as a caller would pass it: any order, an index may be named twice
+            idxs = set(raw)
+            if len(raw) != len(idxs):
+                labels.add("index-named-twice")
+            net.remove_reaction(list(raw))
             model.held = [e for j, e in enumerate(model.held) if j not in idxs]
             labels.add("removal")
         elif o == "rm_inst":
@@ -261,7 +264,7 @@ def run_api(case, failures):
         elif o == "rm_insts":
             if n == 0:
                 continue
-            idxs = sorted({i % n for i in op["is"]})
+            idxs = [i % n for i in op["is"]]  # any order, an instance may be named twice
             net.remove_reaction([net.reaction_list[i] for i in idxs])
             ks = {req_key(model.held[i][1]) for i in idxs}
             model.held = [e for e in model.held if req_key(e[1]) not in ks]
